@@ -53,6 +53,8 @@ pub struct AppCall {
     pub body_in: Vec<u8>,
     pub opts_out: Vec<(u16, Vec<Vec<u8>>)>,
     pub found: bool,
+    /// code byte the application put on its reply
+    pub code: u8,
 }
 
 #[derive(Clone, Debug)]
@@ -114,6 +116,8 @@ pub struct ResSpec {
     pub up_reply_lens: Vec<usize>,
     /// the application sets a Block2 option of its own (hostile family only)
     pub own_block2: Option<(u16, bool, u8)>,
+    /// the application answers with this (error) code instead of 2.05 / 2.04
+    pub code: Option<u8>,
 }
 
 pub struct App {
@@ -159,14 +163,17 @@ impl App {
                 r.message.header.code = MessageClass::Response(ResponseType::NotFound);
                 r.message.payload = b"nf".to_vec();
             }
-            return AppCall { version, body_out_id: 0, body_out_len: 2, body_in, opts_out: vec![], found: false };
+            return AppCall { version, body_out_id: 0, body_out_len: 2, body_in, opts_out: vec![], found: false, code: 0x84 };
         };
         let is_read = method == 1 || method == 5;
         let lens = if is_read { &spec.lens } else { &spec.up_reply_lens };
         let len = if lens.is_empty() { 0 } else { lens[version as usize % lens.len()] };
         let id = body_id(ep, method, &path, version);
         if let Some(r) = req.response.as_mut() {
-            r.message.header.code = MessageClass::Response(if is_read { ResponseType::Content } else { ResponseType::Changed });
+            r.message.header.code = match spec.code {
+                Some(c) => MessageClass::from(c),
+                None => MessageClass::Response(if is_read { ResponseType::Content } else { ResponseType::Changed }),
+            };
             r.message.payload = gen_body(id, len);
             for (num, vals) in &spec.opts {
                 for v in vals {
@@ -177,7 +184,8 @@ impl App {
                 r.message.add_option_as(CoapOption::Block2, BlockValue { num: n, more: m, size_exponent: s });
             }
         }
-        AppCall { version, body_out_id: id, body_out_len: len, body_in, opts_out: spec.opts.clone(), found: true }
+        let code = spec.code.unwrap_or(if is_read { 0x45 } else { 0x44 });
+        AppCall { version, body_out_id: id, body_out_len: len, body_in, opts_out: spec.opts.clone(), found: true, code }
     }
 }
 
@@ -731,13 +739,15 @@ impl Server {
     /// function of the message id, so no choice is drawn).
     fn check_c07_error_shapes(&mut self, req: &CoapRequest<Ep>, stats: &mut Stats) {
         let mid = req.message.header.message_id as usize;
-        let shapes: [fn() -> HandlingError; 6] = [
+        let shapes: [fn() -> HandlingError; 7] = [
             HandlingError::not_handled,
             HandlingError::not_found,
             || HandlingError::bad_request("bad"),
             || HandlingError::internal("boom"),
             HandlingError::method_not_supported,
             || HandlingError::with_code(ResponseType::ServiceUnavailable, ""),
+            // a diagnostic longer than any packet size limit
+            || HandlingError::internal("x".repeat(1400)),
         ];
         for k in 0..2 {
             let e = shapes[(mid + k * 3) % shapes.len()]();
@@ -761,6 +771,16 @@ impl Server {
                     let added = self.violations.split_off(n0);
                     self.violations.extend(added.into_iter().filter(|v| v.prop != "C11"));
                     stats.hit("c07.error-shapes.checked");
+                    // the same error once more on the same request: the reply
+                    // is still there, so it is applied (and reported) again
+                    let before2 = r.response.clone();
+                    let e3 = e2.clone();
+                    if let Ok(ret2) = guard(|| r.apply_from_error(e3)) {
+                        let n1 = self.violations.len();
+                        self.check_error_rendering(&before2, &r, &e2, ret2, had_code, stats);
+                        let added = self.violations.split_off(n1);
+                        self.violations.extend(added.into_iter().filter(|v| v.prop != "C11"));
+                    }
                 }
                 Err(msg) => self.violations.push(Violation::new("C07", "error-result", format!("apply_from_error panicked: {}", msg))),
             }
@@ -945,6 +965,16 @@ impl Server {
         if app_own_b2 {
             return;
         }
+        // the size the server used last on this key (recorded whatever the
+        // budget: the premise below is about the client, not the budget)
+        // keyed the way the handler keys its cache (unknown methods share one
+        // key, a path with an undecodable segment is the empty path)
+        let b2key: Key = (method_ord(key.0), if key.1.iter().all(|sg| std::str::from_utf8(sg).is_ok()) { key.1.clone() } else { vec![] });
+        let last_before = self.last_b2_size.get(&(from, b2key.clone())).copied();
+        if let (Some((_, _, s)), true) = (r_b2, arr.app.is_some()) {
+            // a fresh response: the size the server chose itself
+            self.last_b2_size.insert((from, b2key.clone()), szx_size(s));
+        }
         if arr.app.is_some() {
             // the application's reply went through intercept_response
             let Some(ov) = arr.resp_overhead else { return };
@@ -978,7 +1008,6 @@ impl Server {
                     if reply.len() > m {
                         self.violations.push(Violation::new("C10", "fits", format!("fragmented response encodes to {} > budget {} (overhead {}, block size {}, more {})", reply.len(), m, ov, size, more)));
                     }
-                    self.last_b2_size.insert((from, key.clone()), size);
                 }
                 None => {
                     stats.hit("c10.unfragmented.checked");
@@ -992,13 +1021,22 @@ impl Server {
                 // follow-up block served from the cache.  Premise: the
                 // client did not raise the size above the server's last.
                 let size = szx_size(s);
-                let last = self.last_b2_size.get(&(from, key.clone())).copied();
+                let last = last_before;
                 let payload_len = resp.message.payload.len();
                 let ov_upper = reply.len() - payload_len; // includes marker and Block2: conservative
+                // a block can only come out of the cache of a key on which
+                // the server has sent a block before; "never raised" is then
+                // relative to that size (no earlier size: nothing to raise)
                 let raised = match (arr.block2, last) {
                     (Some((_, _, cs)), Some(l)) => szx_size(cs) > l,
+                    (Some(_), None) => false,
                     _ => true,
                 };
+                if !raised {
+                    // a block at a size the client did not raise: also the
+                    // reference for what follows
+                    self.last_b2_size.insert((from, b2key.clone()), size);
+                }
                 if !raised && m <= 1280 && m >= ov_upper + 28 {
                     stats.hit("c10.cached.fits.checked");
                     if reply.len() > m {
@@ -1009,7 +1047,6 @@ impl Server {
                             self.violations.push(Violation::new("C10", "le-client", format!("cached block size {} > client's {}", size, szx_size(cs))));
                         }
                     }
-                    self.last_b2_size.insert((from, key.clone()), size);
                 }
             }
         }
